@@ -178,7 +178,14 @@ class History:
             _, idx, hook = op
             m = u.models[idx]
             r = await u.send(idx, ("enter", hook))
-            if m.state == "inactive":
+            if hook == "fault" and m.state == "inactive":
+                # the entry failed: the context was never entered (it stays inactive and can be entered later)
+                from .ctxuniverse import HE as _HE
+
+                if r[0] != "enter-failed" or not isinstance(r[1], _HE):
+                    u.fail("lifecycle", f"entering c{idx} while its task group cannot be created: {r}")
+                m.marks = getattr(m, "marks", 0) + 1
+            elif m.state == "inactive":
                 if r[0] != "entered":
                     u.fail("lifecycle", f"entering inactive c{idx} failed: {r}")
                 m.state = "open"
